@@ -55,7 +55,7 @@ invariant
     builder.root == applies_in, // OBL:C03+C14.new.matcher_is_rooted_at_its_own_directory
     builder_lines(builder) == lines0 + pattern_lines(content.lines@, $IT.pos@), // OBL:C03.new.every_listed_file_contributes_its_pattern_lines_in_order
 ensures
-    $IT.pos@ == $IT.v@.len(),
+    $IT.pos@ == $IT.v@.len(), // OBL:C03.new.every_listed_file_contributes_its_pattern_lines_in_order
 decreases $IT.v@.len() - $IT.pos@
 //@ item IgnoreFilter::recompile
 //@ header
